@@ -31,7 +31,12 @@ OPTSETS = {"R3": ["ac", "ac_nols", "ac_nonumba", "dc"], "M4": ["ac", "ac_nols", 
 
 
 def extra_menu(b):
-    """passive-branch parameter corners not in the shared structure menu"""
+    """passive-branch parameter corners not in the shared structure menu + demand at the slack bus itself"""
+    s = 20. if b == "M4" else 1.
+    return [["load", 0, 0.7 * s, 0.2 * s, "P", 1., True]] + _extra_menu(b)
+
+
+def _extra_menu(b):
     if b == "R3":
         return [["set", "line", 1, "r_ohm_per_km", 0.], ["set", "line", 0, "g_us_per_km", 50.],
                 ["set", "line", 1, "c_nf_per_km", 0.], ["linex", 0, 2, {"r_ohm_per_km": 0., "c_nf_per_km": 0.}],
